@@ -117,9 +117,10 @@ static void c07_phase(int n, int mode, bool overlap, bool nbr, int placementStep
 }
 
 // ---- C08 -------------------------------------------------------------------------------
-struct Hier { const char *name; vector<vector<int>> top; vector<int> nestedIn0; };   // top-level clusters; optional child cluster inside cluster 0
+struct Hier { const char *name; vector<vector<int>> top; vector<int> nestedIn0; int emptyCluster = 0; };   // top-level clusters; optional child cluster inside cluster 0; emptyCluster: 1 an EMPTY child cluster of cluster 0 listed after the nested child, 2 listed before it, 3 an empty top-level cluster
 static void c08_case(int n, int code, int sz, int hier, double pad, bool exempt, bool withSep) {
-    static const vector<Hier> H = {{"none", {}, {}}, {"{0,1}|{2,3}", {{0, 1}, {2, 3}}, {}}, {"{0,2}|{1}", {{0, 2}, {1}}, {}}, {"{0,1,2}|{3}", {{0, 1, 2}, {3}}, {}}, {"{{0,1},2}|{3}", {{2}, {3}}, {0, 1}}};
+    static const vector<Hier> H = {{"none", {}, {}}, {"{0,1}|{2,3}", {{0, 1}, {2, 3}}, {}}, {"{0,2}|{1}", {{0, 2}, {1}}, {}}, {"{0,1,2}|{3}", {{0, 1, 2}, {3}}, {}}, {"{{0,1},2}|{3}", {{2}, {3}}, {0, 1}},
+                                   {"{{0,1},{}}|{2,3}", {{}, {2, 3}}, {0, 1}, 1}, {"{{},{0,1}}|{2,3}", {{}, {2, 3}}, {0, 1}, 2}, {"{0,1}|{}|{2,3}", {{0, 1}, {2, 3}}, {}, 3}, {"{{0,1},{},2}|{3}", {{2}, {3}}, {0, 1}, 1}};
     const Hier &hr = H[hier]; for (auto &m : hr.top) for (int v : m) if (v >= n) return; for (int v : hr.nestedIn0) if (v >= n) return;
     vpsc::Rectangles rs; int c = code; VD w0, h0; string start;
     double G2[3] = {0, 15, 40};
@@ -130,8 +131,9 @@ static void c08_case(int n, int code, int sz, int hier, double pad, bool exempt,
     if (!hr.top.empty()) {
         root = new RootCluster();
         for (size_t k = 0; k < hr.top.size(); k++) { RectangularCluster *rc = new RectangularCluster(); rc->setPadding(Box(pad)); rc->setMargin(Box(pad)); vector<int> mem = hr.top[k]; for (int v : hr.top[k]) rc->addChildNode(v);
-            if (k == 0 && !hr.nestedIn0.empty()) { RectangularCluster *in = new RectangularCluster(); in->setPadding(Box(pad)); in->setMargin(Box(pad)); for (int v : hr.nestedIn0) { in->addChildNode(v); mem.push_back(v); } rc->addChildCluster(in); }
-            root->addChildCluster(rc); groups.push_back(mem); }
+            if (k == 0 && !hr.nestedIn0.empty()) { RectangularCluster *in = new RectangularCluster(); in->setPadding(Box(pad)); in->setMargin(Box(pad)); for (int v : hr.nestedIn0) { in->addChildNode(v); mem.push_back(v); }
+                if (hr.emptyCluster == 2) rc->addChildCluster(new RectangularCluster()); rc->addChildCluster(in); if (hr.emptyCluster == 1) rc->addChildCluster(new RectangularCluster()); }
+            root->addChildCluster(rc); if (k == 0 && hr.emptyCluster == 3) root->addChildCluster(new RectangularCluster()); groups.push_back(mem); }
     }
     string desc = mcx::fmt("n=%d start %s sizes=%d clusters=%s padding/margin=%g exempt{0,1}=%d sep(0+15<=1)=%d", n, start.c_str(), sz, hr.name, pad, exempt, withSep);
     UnsatisfiableConstraintInfos ux, uy; string thrown; ctx.count("transitions"); ctx.count("evaluations"); ctx.announce(desc);
@@ -286,9 +288,9 @@ int main(int argc, char **argv) {
         if (T) { for (int mode : {0, 1, 2, 4}) c07_phase(3, mode, false, false, 1, 2, 0, 2); c07_phase(3, 0, true, false, 3, 3, 5, 2); c07_phase(3, 0, true, true, 5, 0, 7, 2); c07_phase(4, 0, false, false, 53, 2, 0, 2); c07_phase(4, 1, true, false, 53, 3, 9, 2); }
     } else {
         c08_phase(3, 0, 0, false, false, 1); c08_phase(3, 2, 0, false, false, 1); c08_phase(3, 0, 0, true, false, 1); c08_phase(3, 0, 0, false, true, 1);
-        c08_phase(4, 1, 0, false, false, 15); c08_phase(4, 0, 0, false, false, 15);
+        c08_phase(4, 1, 0, false, false, 15); c08_phase(4, 0, 0, false, false, 15); for (int h = 5; h <= 8; h++) c08_phase(4, h, 0, false, false, 15);
         c08_history_phase(3, 2, 1); c08_history_phase(3, 3, 3); c08_history_phase(3, 4, 29);
-        if (T) { for (int h = 0; h < 5; h++) for (double pad : {0.0, 5.0}) c08_phase(4, h, pad, false, false, 5); c08_phase(4, 1, 5, true, true, 5); c08_phase(4, 4, 0, false, true, 5); c08_phase(3, 2, 5, true, true, 1); }
+        if (T) { for (int h = 0; h < 9; h++) for (double pad : {0.0, 5.0}) c08_phase(4, h, pad, false, false, 5); c08_phase(4, 1, 5, true, true, 5); c08_phase(4, 4, 0, false, true, 5); c08_phase(3, 2, 5, true, true, 1); }
     }
     return ctx.finish();
 }
